@@ -105,6 +105,7 @@ type HarnessRun struct {
 	AssertIDs     map[string]int // id -> times checked
 	CrossCheck    []*Solver      // optional extra solvers for obligations
 	Disagree      []string
+	PathSamples   [][]InputValue // input vectors of completed paths, replayed natively (expected: no failure)
 	SharedGlobals map[*ssa.Global]*Loc
 	SharedInit    map[*ssa.Package]bool
 }
@@ -669,6 +670,15 @@ func (ex *Exec) runPath() (fatal bool) {
 	h := ex.H
 	res := ex.runThreads()
 	if res == nil {
+		// a completed path: keep a few concrete input vectors for native cross-validation
+		if len(h.PathSamples) < 3 && (h.Stats.Paths%7 == 1 || h.Stats.Paths <= 2) {
+			func() {
+				defer func() { recover() }()
+				if r, m := ex.check(nil, true); r == Sat {
+					h.PathSamples = append(h.PathSamples, ex.modelToInputs(m))
+				}
+			}()
+		}
 		return false
 	}
 	switch res.kind {
